@@ -68,7 +68,7 @@ class ColumnMetadata:
         Returns:
             hed_strings(pd.Series): The HED strings for this series.(potentially empty).
         """
-        if not self.column_type:
+        if not self.column_type or self.column_type == ColumnType.Ignore:
             return pd.Series(dtype=str)
 
         series = pd.Series(self.hed_dict, dtype=str)
